@@ -27,6 +27,24 @@ CLAIMS = {
              "Spurious flags are measured, not required. Unverified: the code generator's use of the helpers beyond the L3 catalogue "
              "(ConsolidateOverflowCheck); unary minus and / are decided by the L3 units (see known findings).",
         ref="4 C04"),
+    "C38": dict(
+        text="Proof for ALL integers (unbounded) that the interpreted fallbacks Shadow.cdiv / Shadow.cmod compute C truncating division "
+             "and remainder - the same spec functions the compiled cdivision code is proved against in C03 - and raise ZeroDivisionError "
+             "exactly for a zero divisor. Kernel: only these two functions of pure-Python mode.",
+        note="Trusted: dv Python front end (int = mathematical integer; // and % encoded through z3 div/mod), z3/cvc5. Unverified: "
+             "cython.cast/declare/locals plumbing and every other Shadow facility.",
+        ref="4 C38"),
+    "C44": dict(
+        text="Proof that every function of LineTable.py meets its contract against a transcription of CPython's location-table decoder "
+             "(validated against co_positions() each run): for every documented position (start-sorted, start<=end, non-negative columns, "
+             "C int range) the bytes appended by encode_single_position decode to exactly that position and the returned running line is "
+             "the decoder's; encode_varint by width-bounded unrolling with unwinding assertion; range obligations for the cython.int "
+             "locals so the proof covers the compiled module; build_line_table: every iteration meets the entry contract with the "
+             "decoder's running line. Kernel: the encoder only.",
+        note="Trusted: dv Python front end, z3/cvc5, the decoder transcription (spec-validated natively). Not proved: the quantified "
+             "whole-table invariant (composition by the append-only/locality argument, DESIGN.md); position collection in the compiler, "
+             "AddTraceback, and that the shipped .so was compiled from this .py.",
+        ref="4 C44"),
 }
 
 NOT_APPLICABLE = {
